@@ -1,5 +1,404 @@
-(* C10 - placeholder while the development is built *)
-From Coq Require Import List ZArith.
-From LA Require Import Fmt.FmtNumDefs.
-Theorem C10_placeholder : True. Proof. exact I. Qed.
-Print Assumptions C10_placeholder.
+(* C10 - Metadata a format cannot hold is reported, never silently altered.
+   Property theorems only; each is closed by [exact] of a lemma of coq/Fmt/*Proofs.v or, for the
+   statements that are FALSE of the faithful model (the writer ignores the formatter's overflow
+   result), stated as  ..._refuted  with a concrete witness checked by vm_compute.
+
+   Models (coq/Fmt/*Defs.v): the byte-level header writers of ustar, v7tar, gnutar, cpio odc / newc /
+   bin / pwb and ar (bsd, svr4), transcribed statement by statement, and the numeric field parsers
+   of the tar, cpio and ar readers.  Field offsets, sizes and the tar template headers come from
+   coq/Gen/FmtLayout.v, regenerated from /repo on every run.
+   "decode" below is always the READER's parser applied to the READER's field window of the bytes
+   the WRITER model produced. *)
+From Coq Require Import List ZArith Bool Lia.
+From LA Require Import Gen.Defines Gen.FmtLayout Fmt.FmtNumDefs Fmt.FmtNumProofs Fmt.FmtTarDefs Fmt.FmtBufProofs
+  Fmt.FmtTarProofs Fmt.FmtCpioDefs Fmt.FmtCpioProofs Fmt.FmtArDefs Fmt.FmtWriteDefs.
+Import ListNotations.
+Local Open Scope Z_scope.
+
+(* ================================================================== 1. codec inverses, exact guards *)
+
+(* octal field of w digits (tar): decodes to v for 0 <= v < 8^w, whatever terminator follows *)
+Theorem C10_octal_roundtrip_tar : forall w v rest,
+  (0 < w)%nat -> 0 <= v < zpow 8 w -> v < 1152921504606846975 -> stops 8 rest ->
+  tar_atol8 (enc (digits_be 8 w v) ++ rest) = v.
+Proof. exact octal_roundtrip_tar. Qed.
+Print Assumptions C10_octal_roundtrip_tar.
+
+(* ustar / v7tar format_number(strict): a zero result means the field reads back as the value *)
+Theorem C10_ustar_format_number_strict_exact : forall v s mx rest,
+  (0 < s <= 19)%nat -> stops 8 rest ->
+  fst (ustar_format_number v s mx true) = 0 ->
+  tar_atol (snd (ustar_format_number v s mx true) ++ rest) = v.
+Proof. exact ustar_strict_exact. Qed.
+Print Assumptions C10_ustar_format_number_strict_exact.
+
+(* ... and a value outside [0, 8^s) is always reported by the formatter *)
+Theorem C10_ustar_format_octal_reports : forall v s, ~ (0 <= v < zpow 8 s) -> fst (ustar_format_octal v s) = -1.
+Proof. exact ustar_format_octal_fails. Qed.
+Print Assumptions C10_ustar_format_octal_reports.
+
+(* base-256, 8-byte field: exact exactly on [-2^62, 2^62) ... *)
+Theorem C10_base256_roundtrip_8 : forall v,
+  - 4611686018427387904 <= v < 4611686018427387904 -> tar_atol (snd (format_256 v 8)) = v.
+Proof. exact base256_roundtrip_8. Qed.
+Print Assumptions C10_base256_roundtrip_8.
+
+(* ... and wrong from 2^62 on: the reader takes bit 6 of the first byte for the sign *)
+Theorem C10_base256_8_beyond_guard_refuted :
+  tar_atol (snd (format_256 4611686018427387904 8)) = - 4611686018427387904.
+Proof. vm_compute. reflexivity. Qed.
+Print Assumptions C10_base256_8_beyond_guard_refuted.
+
+(* base-256, 12-byte field (size): exact for every non-negative int64 *)
+Theorem C10_base256_roundtrip_12 : forall v, 0 <= v < two63 -> tar_atol (snd (format_256 v 12)) = v.
+Proof. exact base256_roundtrip_12. Qed.
+Print Assumptions C10_base256_roundtrip_12.
+
+(* gnutar format_number: octal below 8^s, base-256 above *)
+Theorem C10_gnutar_format_number_exact_8 : forall v s rest,
+  (0 < s <= 8)%nat -> 0 <= v < 4611686018427387904 ->
+  (if v <? zpow 8 s then stops 8 rest else rest = []) ->
+  fst (gnutar_format_number v s 8) = 0 /\ tar_atol (snd (gnutar_format_number v s 8) ++ rest) = v.
+Proof. exact gnutar_number_exact_8. Qed.
+Print Assumptions C10_gnutar_format_number_exact_8.
+
+Theorem C10_gnutar_format_number_exact_12 : forall v s rest,
+  (0 < s <= 12)%nat -> 0 <= v < two63 ->
+  (if v <? zpow 8 s then stops 8 rest else rest = []) ->
+  fst (gnutar_format_number v s 12) = 0 /\ tar_atol (snd (gnutar_format_number v s 12) ++ rest) = v.
+Proof. exact gnutar_number_exact_12. Qed.
+Print Assumptions C10_gnutar_format_number_exact_12.
+
+(* cpio odc / newc fields: the value if it fits, the saturated maximum otherwise (never an error) *)
+Theorem C10_odc_field_decodes : forall v w, (0 < w <= 20)%nat ->
+  cpio_atol8 (snd (odc_format_octal v w)) = if (0 <=? v) && (v <? zpow 8 w) then v else zpow 8 w - 1.
+Proof. exact odc_field_decodes. Qed.
+Print Assumptions C10_odc_field_decodes.
+
+Theorem C10_newc_field_decodes : forall v w, (0 < w <= 15)%nat ->
+  cpio_atol16 (snd (newc_format_hex v w)) = if (0 <=? v) && (v <? zpow 16 w) then v else zpow 16 w - 1.
+Proof. exact newc_field_decodes. Qed.
+Print Assumptions C10_newc_field_decodes.
+
+(* binary cpio casts: the reader gets the value modulo 2^16 / 2^32 *)
+Theorem C10_bin16_roundtrip : forall v, le2 (bin16 v) = v mod 65536.
+Proof. exact bin16_roundtrip. Qed.
+Print Assumptions C10_bin16_roundtrip.
+Theorem C10_bin32_roundtrip : forall v, le4 (bin32 v) = v mod 4294967296.
+Proof. exact bin32_roundtrip. Qed.
+Print Assumptions C10_bin32_roundtrip.
+
+(* ar format_decimal / format_octal: a zero result means the (blank padded) field reads back as the value *)
+Theorem C10_ar_decimal_exact : forall v s, (0 < s <= 17)%nat ->
+  fst (ar_format_decimal v s) = 0 ->
+  ar_atol10 (snd (ar_format_decimal v s)) = v /\ length (snd (ar_format_decimal v s)) = s.
+Proof. exact ar_decimal_exact. Qed.
+Print Assumptions C10_ar_decimal_exact.
+Theorem C10_ar_octal_exact : forall v s, (0 < s <= 20)%nat ->
+  fst (ar_format_octal v s) = 0 ->
+  ar_atol8 (snd (ar_format_octal v s)) = v /\ length (snd (ar_format_octal v s)) = s.
+Proof. exact ar_octal_exact. Qed.
+Print Assumptions C10_ar_octal_exact.
+
+(* ================================================================== 2. ustar: status 0 means exact *)
+(* e: any entry; tt: the tartype argument (-1 for the ustar writer itself); strict formatting.
+   Header status 0  ->  every numeric field, read through the reader's window, is the value. *)
+Theorem C10_ok_means_exact_ustar_mode : forall e tt, fst (ustar_header e tt true) = 0 ->
+  tar_atol (slice R_tar_mode_offset R_tar_mode_size (snd (ustar_header e tt true))) = Z.land (e_mode e) 4095.
+Proof. exact ustar_ok_mode. Qed.
+Print Assumptions C10_ok_means_exact_ustar_mode.
+Theorem C10_ok_means_exact_ustar_uid : forall e tt, fst (ustar_header e tt true) = 0 ->
+  tar_atol (slice R_tar_uid_offset R_tar_uid_size (snd (ustar_header e tt true))) = e_uid e.
+Proof. exact ustar_ok_uid. Qed.
+Print Assumptions C10_ok_means_exact_ustar_uid.
+Theorem C10_ok_means_exact_ustar_gid : forall e tt, fst (ustar_header e tt true) = 0 ->
+  tar_atol (slice R_tar_gid_offset R_tar_gid_size (snd (ustar_header e tt true))) = e_gid e.
+Proof. exact ustar_ok_gid. Qed.
+Print Assumptions C10_ok_means_exact_ustar_gid.
+Theorem C10_ok_means_exact_ustar_size : forall e tt, fst (ustar_header e tt true) = 0 ->
+  tar_atol (slice R_tar_size_offset R_tar_size_size (snd (ustar_header e tt true))) = size_of e.
+Proof. exact ustar_ok_size. Qed.
+Print Assumptions C10_ok_means_exact_ustar_size.
+Theorem C10_ok_means_exact_ustar_mtime : forall e tt, fst (ustar_header e tt true) = 0 ->
+  tar_atol (slice R_tar_mtime_offset R_tar_mtime_size (snd (ustar_header e tt true))) = e_mtime e.
+Proof. exact ustar_ok_mtime. Qed.
+Print Assumptions C10_ok_means_exact_ustar_mtime.
+Theorem C10_ok_means_exact_ustar_rdevmajor : forall e tt, fst (ustar_header e tt true) = 0 -> is_dev e = true ->
+  tar_atol (slice R_tar_rdevmajor_offset R_tar_rdevmajor_size (snd (ustar_header e tt true))) = dev_major (e_rdev e).
+Proof. exact ustar_ok_rdevmajor. Qed.
+Print Assumptions C10_ok_means_exact_ustar_rdevmajor.
+Theorem C10_ok_means_exact_ustar_rdevminor : forall e tt, fst (ustar_header e tt true) = 0 -> is_dev e = true ->
+  tar_atol (slice R_tar_rdevminor_offset R_tar_rdevminor_size (snd (ustar_header e tt true))) = dev_minor (e_rdev e).
+Proof. exact ustar_ok_rdevminor. Qed.
+Print Assumptions C10_ok_means_exact_ustar_rdevminor.
+
+(* strings: NUL-free strings come back from their fields; the pathname from prefix + '/' + name.
+   The side condition on the pathname is exact: see the _refuted statement below. *)
+Theorem C10_ok_means_exact_ustar_pathname : forall e tt, fst (ustar_header e tt true) = 0 ->
+  no_nul (ob (e_path e)) ->
+  (forall i, ustar_split (ob (e_path e)) = Some i -> nth (i - 1) (ob (e_path e)) 0 <> slash) ->
+  ustar_join (slice R_tar_prefix_offset R_tar_prefix_size (snd (ustar_header e tt true)))
+             (slice R_tar_name_offset R_tar_name_size (snd (ustar_header e tt true))) = ob (e_path e).
+Proof. exact ustar_ok_pathname. Qed.
+Print Assumptions C10_ok_means_exact_ustar_pathname.
+Theorem C10_ok_means_exact_ustar_linkname : forall e tt, fst (ustar_header e tt true) = 0 ->
+  no_nul (linkname_of e) ->
+  cstr (slice R_tar_linkname_offset R_tar_linkname_size (snd (ustar_header e tt true))) = linkname_of e.
+Proof. exact ustar_ok_linkname. Qed.
+Print Assumptions C10_ok_means_exact_ustar_linkname.
+Theorem C10_ok_means_exact_ustar_uname : forall e tt, fst (ustar_header e tt true) = 0 -> tt <> 120 ->
+  no_nul (ob (e_uname e)) ->
+  cstr (slice R_tar_uname_offset R_tar_uname_size (snd (ustar_header e tt true))) = ob (e_uname e).
+Proof. exact ustar_ok_uname. Qed.
+Print Assumptions C10_ok_means_exact_ustar_uname.
+Theorem C10_ok_means_exact_ustar_gname : forall e tt, fst (ustar_header e tt true) = 0 -> tt <> 120 ->
+  no_nul (ob (e_gname e)) ->
+  cstr (slice R_tar_gname_offset R_tar_gname_size (snd (ustar_header e tt true))) = ob (e_gname e).
+Proof. exact ustar_ok_gname. Qed.
+Print Assumptions C10_ok_means_exact_ustar_gname.
+
+(* without the side condition the pathname statement is false: "a//<100 x 'b'>" is split at the second
+   '/', the prefix "a/" ends in '/', the reader adds none, and one '/' is lost - with status 0 *)
+Definition dslash_path : list Z := [97; 47; 47] ++ repeat 98 100.
+Definition reg_entry (path : list Z) (uid mtime : Z) : entry :=
+  mkEntry (Some path) None None None None (IFREG + 420) uid 0 (Some 0) mtime 0 0 1 0 [].
+Theorem C10_ok_means_exact_ustar_pathname_refuted : exists e,
+  fst (ustar_header e (-1) true) = 0 /\ no_nul (ob (e_path e)) /\
+  ustar_join (slice R_tar_prefix_offset R_tar_prefix_size (snd (ustar_header e (-1) true)))
+             (slice R_tar_name_offset R_tar_name_size (snd (ustar_header e (-1) true))) <> ob (e_path e).
+Proof.
+  exists (reg_entry dslash_path 0 0). split; [vm_compute; reflexivity|]. split.
+  - unfold no_nul. vm_compute. repeat constructor; discriminate.
+  - vm_compute. discriminate.
+Qed.
+Print Assumptions C10_ok_means_exact_ustar_pathname_refuted.
+
+(* a refused ustar / v7tar entry writes nothing at all *)
+Theorem C10_refused_writes_nothing_ustar : forall full e,
+  w_status (ustar_entry full e) < ST_WARN -> w_hdr (ustar_entry full e) = [] /\ w_rest (ustar_entry full e) = [].
+Proof.
+  intros full e. unfold ustar_entry. destruct (e_path e); cbn [w_status w_hdr w_rest]; [|auto].
+  destruct (ustar_header (dir_slash (no_body e)) (-1) true) as [ret h].
+  destruct (ret <? ST_WARN) eqn:E; cbn [w_status w_hdr w_rest]; [auto|].
+  apply Z.ltb_ge in E. destruct full; cbn [negb].
+  - destruct (tar_body (size_of (dir_slash (no_body e))) (e_body (dir_slash (no_body e)))). cbn [w_status]. lia.
+  - cbn [w_status]. lia.
+Qed.
+Print Assumptions C10_refused_writes_nothing_ustar.
+
+(* ================================================================== 3. v7tar *)
+Theorem C10_ok_means_exact_v7tar_mode : forall e, fst (v7tar_header e true) = 0 ->
+  tar_atol (slice R_tar_mode_offset R_tar_mode_size (snd (v7tar_header e true))) = Z.land (e_mode e) 4095.
+Proof. exact v7tar_ok_mode. Qed.
+Print Assumptions C10_ok_means_exact_v7tar_mode.
+Theorem C10_ok_means_exact_v7tar_uid : forall e, fst (v7tar_header e true) = 0 ->
+  tar_atol (slice R_tar_uid_offset R_tar_uid_size (snd (v7tar_header e true))) = e_uid e.
+Proof. exact v7tar_ok_uid. Qed.
+Print Assumptions C10_ok_means_exact_v7tar_uid.
+Theorem C10_ok_means_exact_v7tar_gid : forall e, fst (v7tar_header e true) = 0 ->
+  tar_atol (slice R_tar_gid_offset R_tar_gid_size (snd (v7tar_header e true))) = e_gid e.
+Proof. exact v7tar_ok_gid. Qed.
+Print Assumptions C10_ok_means_exact_v7tar_gid.
+Theorem C10_ok_means_exact_v7tar_size : forall e, fst (v7tar_header e true) = 0 ->
+  tar_atol (slice R_tar_size_offset R_tar_size_size (snd (v7tar_header e true))) = size_of e.
+Proof. exact v7tar_ok_size. Qed.
+Print Assumptions C10_ok_means_exact_v7tar_size.
+Theorem C10_ok_means_exact_v7tar_mtime : forall e, fst (v7tar_header e true) = 0 ->
+  tar_atol (slice R_tar_mtime_offset R_tar_mtime_size (snd (v7tar_header e true))) = e_mtime e.
+Proof. exact v7tar_ok_mtime. Qed.
+Print Assumptions C10_ok_means_exact_v7tar_mtime.
+
+(* ================================================================== 4. gnutar *)
+(* uid, gid, size are exact on the stated ranges (whatever the status: the formatter cannot fail there) *)
+Theorem C10_exact_in_range_gnutar_uid : forall name lk un gn e t, 0 <= e_uid e < 4611686018427387904 ->
+  tar_atol (slice R_tar_uid_offset R_tar_uid_size (snd (gnutar_header name lk un gn e t))) = e_uid e.
+Proof. exact gnutar_uid_exact. Qed.
+Print Assumptions C10_exact_in_range_gnutar_uid.
+Theorem C10_exact_in_range_gnutar_gid : forall name lk un gn e t, 0 <= e_gid e < 4611686018427387904 ->
+  tar_atol (slice R_tar_gid_offset R_tar_gid_size (snd (gnutar_header name lk un gn e t))) = e_gid e.
+Proof. exact gnutar_gid_exact. Qed.
+Print Assumptions C10_exact_in_range_gnutar_gid.
+Theorem C10_exact_in_range_gnutar_size : forall name lk un gn e t, 0 <= size_of e < two63 ->
+  tar_atol (slice R_tar_size_offset R_tar_size_size (snd (gnutar_header name lk un gn e t))) = size_of e.
+Proof. exact gnutar_size_exact. Qed.
+Print Assumptions C10_exact_in_range_gnutar_size.
+
+Definition gnu_hdr (e : entry) : Z * list Z :=
+  gnutar_header (ob (e_path e)) (linkname_of e) (ob (e_uname e)) (ob (e_gname e)) e 48.
+
+(* status 0 does NOT mean exact for: uid/gid >= 2^62 (base-256 sign bit), mtime outside [0, 2^33)
+   (format_octal result dropped, archive_write_set_format_gnutar.c:666), uname/gname longer than 32 bytes
+   (silently truncated, :607 and :621) *)
+Theorem C10_ok_means_exact_gnutar_uid_refuted : exists e,
+  fst (gnu_hdr e) = 0 /\ tar_atol (slice R_tar_uid_offset R_tar_uid_size (snd (gnu_hdr e))) <> e_uid e.
+Proof. exists (reg_entry [120] 4611686018427387904 0). split; vm_compute; [reflexivity | discriminate]. Qed.
+Print Assumptions C10_ok_means_exact_gnutar_uid_refuted.
+Theorem C10_ok_means_exact_gnutar_mtime_refuted : exists e,
+  fst (gnu_hdr e) = 0 /\ tar_atol (slice R_tar_mtime_offset R_tar_mtime_size (snd (gnu_hdr e))) <> e_mtime e.
+Proof. exists (reg_entry [120] 0 8589934592). split; vm_compute; [reflexivity | discriminate]. Qed.
+Print Assumptions C10_ok_means_exact_gnutar_mtime_refuted.
+Theorem C10_ok_means_exact_gnutar_mtime_negative_refuted : exists e,
+  fst (gnu_hdr e) = 0 /\ tar_atol (slice R_tar_mtime_offset R_tar_mtime_size (snd (gnu_hdr e))) <> e_mtime e.
+Proof. exists (reg_entry [120] 0 (-1)). split; vm_compute; [reflexivity | discriminate]. Qed.
+Print Assumptions C10_ok_means_exact_gnutar_mtime_negative_refuted.
+Definition named_entry (un : list Z) : entry :=
+  mkEntry (Some [120]) None None (Some un) None (IFREG + 420) 0 0 (Some 0) 0 0 0 1 0 [].
+Theorem C10_ok_means_exact_gnutar_uname_refuted : exists e,
+  fst (gnu_hdr e) = 0 /\ cstr (slice R_tar_uname_offset R_tar_uname_size (snd (gnu_hdr e))) <> ob (e_uname e).
+Proof.
+  exists (named_entry (repeat 117 33)). split; [vm_compute; reflexivity|].
+  intros H. apply (f_equal (@length Z)) in H. vm_compute in H. discriminate.
+Qed.
+Print Assumptions C10_ok_means_exact_gnutar_uname_refuted.
+
+(* a refused gnutar entry may already have written its 'L' long-name pseudo entry: a socket (unsupported type)
+   with a 101-byte name returns ARCHIVE_FAILED after 1024 bytes went out, and the NEXT entry inherits the name *)
+Theorem C10_refused_writes_nothing_gnutar_refuted : exists e,
+  w_status (gnutar_entry true e) = ST_FAILED /\ length (w_hdr (gnutar_entry true e)) = 1024%nat.
+Proof.
+  exists (mkEntry (Some (repeat 97 101)) None None None None (IFSOCK + 420) 0 0 (Some 0) 0 0 0 1 0 []).
+  split; vm_compute; reflexivity.
+Qed.
+Print Assumptions C10_refused_writes_nothing_gnutar_refuted.
+
+(* ================================================================== 5. cpio odc *)
+(* the one result write_header looks at: status OK means the file size field is exact *)
+Theorem C10_ok_means_exact_odc_filesize : forall st e st' out rem,
+  odc_write_header st e = (st', ST_OK, out, rem) ->
+  cpio_atol8 (slice ODC_c_filesize_offset ODC_c_filesize_size (firstn 76 out))
+  = if (0 <? length (sym_of e))%nat then lenZ (sym_of e) else body_size e.
+Proof. exact odc_ok_filesize. Qed.
+Print Assumptions C10_ok_means_exact_odc_filesize.
+
+(* every other numeric field: "TODO: Set ret_final to ARCHIVE_WARN if any of these overflow"
+   (archive_write_set_format_cpio_odc.c:343) - status OK with a saturated field *)
+Definition odc_out (e : entry) : Z * list Z :=
+  let '(_, st, out, _) := odc_write_header cpio_init e in (st, out).
+Definition num_entry (uid gid mtime dev nlink : Z) : entry :=
+  mkEntry (Some [120]) None None None None (IFREG + 420) uid gid (Some 0) mtime dev 0 nlink 0 [].
+
+Theorem C10_ok_means_exact_odc_uid_refuted : exists e,
+  fst (odc_out e) = ST_OK /\ cpio_atol8 (slice ODC_c_uid_offset ODC_c_uid_size (snd (odc_out e))) <> e_uid e.
+Proof. exists (num_entry 262144 0 0 0 1). split; vm_compute; [reflexivity | discriminate]. Qed.
+Print Assumptions C10_ok_means_exact_odc_uid_refuted.
+Theorem C10_ok_means_exact_odc_gid_refuted : exists e,
+  fst (odc_out e) = ST_OK /\ cpio_atol8 (slice ODC_c_gid_offset ODC_c_gid_size (snd (odc_out e))) <> e_gid e.
+Proof. exists (num_entry 0 262144 0 0 1). split; vm_compute; [reflexivity | discriminate]. Qed.
+Print Assumptions C10_ok_means_exact_odc_gid_refuted.
+Theorem C10_ok_means_exact_odc_mtime_refuted : exists e,
+  fst (odc_out e) = ST_OK /\ cpio_atol8 (slice ODC_c_mtime_offset ODC_c_mtime_size (snd (odc_out e))) <> e_mtime e.
+Proof. exists (num_entry 0 0 8589934592 0 1). split; vm_compute; [reflexivity | discriminate]. Qed.
+Print Assumptions C10_ok_means_exact_odc_mtime_refuted.
+Theorem C10_ok_means_exact_odc_dev_refuted : exists e,
+  fst (odc_out e) = ST_OK /\ cpio_atol8 (slice ODC_c_dev_offset ODC_c_dev_size (snd (odc_out e))) <> e_dev e.
+Proof. exists (num_entry 0 0 0 262144 1). split; vm_compute; [reflexivity | discriminate]. Qed.
+Print Assumptions C10_ok_means_exact_odc_dev_refuted.
+Theorem C10_ok_means_exact_odc_nlink_refuted : exists e,
+  fst (odc_out e) = ST_OK /\ cpio_atol8 (slice ODC_c_nlink_offset ODC_c_nlink_size (snd (odc_out e))) <> e_nlink e.
+Proof. exists (num_entry 0 0 0 0 262144). split; vm_compute; [reflexivity | discriminate]. Qed.
+Print Assumptions C10_ok_means_exact_odc_nlink_refuted.
+(* the name size field saturates too: a 262143-byte pathname is accepted and the archive is unreadable *)
+Theorem C10_ok_means_exact_odc_namesize_refuted : exists e,
+  fst (odc_out e) = ST_OK /\
+  cpio_atol8 (slice ODC_c_namesize_offset ODC_c_namesize_size (snd (odc_out e))) <> lenZ (ob (e_path e)) + 1.
+Proof.
+  exists (reg_entry (repeat 97 262143) 0 0). split; [vm_compute; reflexivity|].
+  unfold odc_out, odc_write_header. cbv zeta.
+  change (synthesize_ino cpio_init (reg_entry (repeat 97 262143) 0 0)) with (cpio_init, 0).
+  cbv iota. change (0 <? 0) with false. change (262143 <? 0) with false. cbv iota.
+  replace (negb (fst (odc_filesize (reg_entry (repeat 97 262143) 0 0)) =? 0)) with false by (vm_compute; reflexivity).
+  cbv iota. cbn [snd].
+  rewrite slice_app_l by (rewrite odc_block_length; unfold ODC_c_namesize_offset, ODC_c_namesize_size; lia).
+  rewrite odc_slice_namesize. rewrite odc_field_decodes by (unfold ODC_c_namesize_size; lia).
+  vm_compute. discriminate.
+Qed.
+Print Assumptions C10_ok_means_exact_odc_namesize_refuted.
+
+(* ================================================================== 6. cpio newc *)
+Theorem C10_ok_means_exact_newc_filesize : forall e ret out rem,
+  newc_write_header e = (ret, out, rem) -> ST_WARN <= ret ->
+  cpio_atol16 (slice NEWC_c_filesize_offset NEWC_c_filesize_size (firstn 110 out))
+  = if (0 <? length (sym_of e))%nat then lenZ (sym_of e) else body_size e.
+Proof. exact newc_ok_filesize. Qed.
+Print Assumptions C10_ok_means_exact_newc_filesize.
+Theorem C10_ok_means_exact_newc_ino : forall e out rem,
+  newc_write_header e = (ST_OK, out, rem) -> 0 <= e_ino e ->
+  cpio_atol16 (slice NEWC_c_ino_offset NEWC_c_ino_size (newc_block e)) = e_ino e.
+Proof. exact newc_ok_ino. Qed.
+Print Assumptions C10_ok_means_exact_newc_ino.
+
+Definition newc_out (e : entry) : Z * list Z := let '(st, out, _) := newc_write_header e in (st, out).
+(* archive_write_set_format_cpio_newc.c:280, same TODO *)
+Theorem C10_ok_means_exact_newc_uid_refuted : exists e,
+  fst (newc_out e) = ST_OK /\ cpio_atol16 (slice NEWC_c_uid_offset NEWC_c_uid_size (snd (newc_out e))) <> e_uid e.
+Proof. exists (num_entry 4294967296 0 0 0 1). split; vm_compute; [reflexivity | discriminate]. Qed.
+Print Assumptions C10_ok_means_exact_newc_uid_refuted.
+Theorem C10_ok_means_exact_newc_gid_refuted : exists e,
+  fst (newc_out e) = ST_OK /\ cpio_atol16 (slice NEWC_c_gid_offset NEWC_c_gid_size (snd (newc_out e))) <> e_gid e.
+Proof. exists (num_entry 0 4294967296 0 0 1). split; vm_compute; [reflexivity | discriminate]. Qed.
+Print Assumptions C10_ok_means_exact_newc_gid_refuted.
+Theorem C10_ok_means_exact_newc_mtime_refuted : exists e,
+  fst (newc_out e) = ST_OK /\ cpio_atol16 (slice NEWC_c_mtime_offset NEWC_c_mtime_size (snd (newc_out e))) <> e_mtime e.
+Proof. exists (num_entry 0 0 4294967296 0 1). split; vm_compute; [reflexivity | discriminate]. Qed.
+Print Assumptions C10_ok_means_exact_newc_mtime_refuted.
+Theorem C10_ok_means_exact_newc_mtime_negative_refuted : exists e,
+  fst (newc_out e) = ST_OK /\ cpio_atol16 (slice NEWC_c_mtime_offset NEWC_c_mtime_size (snd (newc_out e))) <> e_mtime e.
+Proof. exists (num_entry 0 0 (-1) 0 1). split; vm_compute; [reflexivity | discriminate]. Qed.
+Print Assumptions C10_ok_means_exact_newc_mtime_negative_refuted.
+
+(* ================================================================== 7. binary cpio *)
+Theorem C10_ok_means_exact_bin_filesize : forall pwb st e st' out rem,
+  bin_write_header pwb st e = (st', ST_OK, out, rem) -> 0 <= body_size e -> lenZ (sym_of e) < 4294967296 ->
+  exists ino, firstn 26 out = bin_block ino e /\
+  le4 (slice R_bin_filesize_offset R_bin_filesize_size (bin_block ino e))
+  = if (0 <? length (sym_of e))%nat then lenZ (sym_of e) else body_size e.
+Proof. exact bin_ok_filesize. Qed.
+Print Assumptions C10_ok_means_exact_bin_filesize.
+
+Definition bin_out (e : entry) : Z * list Z :=
+  let '(_, st, out, _) := bin_write_header false cpio_init e in (st, out).
+(* (uint16_t) / (uint32_t) casts, archive_write_set_format_cpio_binary.c:429-475 *)
+Theorem C10_ok_means_exact_bin_uid_refuted : exists e,
+  fst (bin_out e) = ST_OK /\ le2 (slice R_bin_uid_offset R_bin_uid_size (snd (bin_out e))) <> e_uid e.
+Proof. exists (num_entry 65536 0 0 0 1). split; vm_compute; [reflexivity | discriminate]. Qed.
+Print Assumptions C10_ok_means_exact_bin_uid_refuted.
+Theorem C10_ok_means_exact_bin_gid_refuted : exists e,
+  fst (bin_out e) = ST_OK /\ le2 (slice R_bin_gid_offset R_bin_gid_size (snd (bin_out e))) <> e_gid e.
+Proof. exists (num_entry 0 65536 0 0 1). split; vm_compute; [reflexivity | discriminate]. Qed.
+Print Assumptions C10_ok_means_exact_bin_gid_refuted.
+Theorem C10_ok_means_exact_bin_mtime_refuted : exists e,
+  fst (bin_out e) = ST_OK /\ le4 (slice R_bin_mtime_offset R_bin_mtime_size (snd (bin_out e))) <> e_mtime e.
+Proof. exists (num_entry 0 0 4294967296 0 1). split; vm_compute; [reflexivity | discriminate]. Qed.
+Print Assumptions C10_ok_means_exact_bin_mtime_refuted.
+Theorem C10_ok_means_exact_bin_dev_refuted : exists e,
+  fst (bin_out e) = ST_OK /\ le2 (slice R_bin_dev_offset R_bin_dev_size (snd (bin_out e))) <> e_dev e.
+Proof. exists (num_entry 0 0 0 65536 1). split; vm_compute; [reflexivity | discriminate]. Qed.
+Print Assumptions C10_ok_means_exact_bin_dev_refuted.
+Theorem C10_ok_means_exact_bin_nlink_refuted : exists e,
+  fst (bin_out e) = ST_OK /\ le2 (slice R_bin_nlink_offset R_bin_nlink_size (snd (bin_out e))) <> e_nlink e.
+Proof. exists (num_entry 0 0 0 0 65536). split; vm_compute; [reflexivity | discriminate]. Qed.
+Print Assumptions C10_ok_means_exact_bin_nlink_refuted.
+
+(* ================================================================== 8. ar *)
+(* a refused member (ARCHIVE_WARN, nothing written) still gets the previous member's padding byte at
+   finish_entry, because entry_padding is never reset: the archive is damaged *)
+Definition ar_member (name : list Z) (uid size : Z) (body : list Z) : entry :=
+  mkEntry (Some name) None None None None (IFREG + 420) uid 0 (Some size) 0 0 0 1 0 [body].
+Theorem C10_refused_leaves_archive_intact_ar_refuted :
+  let es := [(ar_member [97] 0 1 [65], false); (ar_member [120] 1000000 0 [], false)] in
+  let '(recs, _, out) := write_archive ArBsd es in
+  map r_hdr recs = [ST_OK; ST_WARN] /\ skipn 70 out = [10].
+Proof. vm_compute. split; reflexivity. Qed.
+Print Assumptions C10_refused_leaves_archive_intact_ar_refuted.
+
+(* ================================================================== non-vacuity *)
+(* a concrete entry with every field at its border is accepted with status 0 (the hypotheses of the
+   ok_means_exact theorems are satisfiable), and one step beyond is refused *)
+Definition border_entry (uid : Z) : entry :=
+  mkEntry (Some (repeat 97 155 ++ [47] ++ repeat 98 100)) None (Some (repeat 99 100)) (Some (repeat 117 32))
+          (Some (repeat 103 32)) (IFLNK + 4095) uid 262143 (Some 0) 8589934591 0 0 1 0 [].
+Example C10_nonvacuous :
+  fst (ustar_header (border_entry 262143) (-1) true) = 0 /\
+  fst (ustar_header (border_entry 262144) (-1) true) = ST_FAILED /\
+  tar_atol (slice R_tar_uid_offset R_tar_uid_size (snd (ustar_header (border_entry 262143) (-1) true))) = 262143.
+Proof. vm_compute. repeat split; reflexivity. Qed.
